@@ -12,3 +12,5 @@ mod common;
 
 pub use crate::config::{Committee, Parameters};
 pub use crate::mempool::{ConsensusMempoolMessage, Mempool};
+#[cfg(hotstuff_verif)]
+pub use crate::mempool::MempoolMessage;
